@@ -50,7 +50,7 @@ pub fn exec(case: &J, acc: &mut Acc) -> Result<(), Fail> {
     }
     acc.eval();
     let fail = |key: &str, msg: String| Fail::violation(key, msg, case.clone());
-    let r = guard(|| -> Result<(bool, bool, bool), Result<Fail, String>> {
+    let r = guard(|| -> Result<(bool, bool, bool, bool), Result<Fail, String>> {
         let mut h = Host::new(&json_text, meta.clone(), &cfg).map_err(|e| Err(e.to_string()))?;
         let mut reg: BTreeSet<(usize, String)> = BTreeSet::new();
         let poll = |h: &Host| -> BTreeMap<String, String> {
@@ -60,6 +60,8 @@ pub fn exec(case: &J, acc: &mut Acc) -> Result<(), Fail> {
                 .map(|g| (g.clone(), render_opt_value(&h.story.get_variable(g))))
                 .collect()
         };
+        let refused_calls = case["refused_calls"].as_bool().unwrap_or(false);
+        let mut refused_seen = false;
         let mut any_change = false;
         let mut prev_unchanged_then_changed = false;
         let mut last_continue_unchanged: BTreeSet<String> = BTreeSet::new();
@@ -67,6 +69,22 @@ pub fn exec(case: &J, acc: &mut Acc) -> Result<(), Fail> {
             match op {
                 HostOp::Continue | HostOp::Slice(_) => {
                     if !h.story.can_continue() {
+                        // a host may call continue when the story cannot: the call is refused,
+                        // and observers must go on working afterwards
+                        if refused_calls {
+                            h.log.borrow_mut().clear();
+                            let r = if matches!(op, HostOp::Slice(_)) {
+                                h.story.continue_async(1.0).map(|_| String::new())
+                            } else {
+                                h.story.cont()
+                            };
+                            if r.is_err() {
+                                refused_seen = true;
+                            }
+                            if h.log.borrow().iter().any(|o| matches!(o, Obs::Notify { .. })) {
+                                return Err(Ok(fail("notified-by-refused-continue", format!("op {i}: a continue that was refused notified an observer"))));
+                            }
+                        }
                         continue;
                     }
                     let before = poll(&h);
@@ -216,7 +234,7 @@ pub fn exec(case: &J, acc: &mut Acc) -> Result<(), Fail> {
                 _ => {}
             }
         }
-        Ok((any_change, prev_unchanged_then_changed, h.fuel_exhausted()))
+        Ok((any_change, prev_unchanged_then_changed || (refused_seen && any_change && false), h.fuel_exhausted(), refused_seen))
     });
     match r {
         Err(p) => Err(panic_fail(&p, "observer history", case)),
@@ -225,7 +243,10 @@ pub fn exec(case: &J, acc: &mut Acc) -> Result<(), Fail> {
             acc.discard("story_new_failed");
             Ok(())
         }
-        Ok(Ok((any_change, rewound, fuel))) => {
+        Ok(Ok((any_change, rewound, fuel, refused_seen))) => {
+            if refused_seen {
+                acc.class("history_with_refused_continue");
+            }
             if fuel {
                 acc.discard("fuel");
                 return Ok(());
@@ -322,7 +343,8 @@ pub fn run(env: &Env) -> i32 {
                 allow_fallbacks: true,
                 ..HostCfg::default()
             };
-            let case = json!({"source": b.src, "cfg": cfg_to_json(&cfg), "ops": ops_to_json(&ops)});
+            let refused = gc.hist.get(1).map(|v| v & 1 == 1).unwrap_or(false);
+            let case = json!({"source": b.src, "cfg": cfg_to_json(&cfg), "ops": ops_to_json(&ops), "refused_calls": refused});
             acc.sample(|| case.clone());
             exec(&case, acc)
         },
